@@ -1395,9 +1395,9 @@ void mmd_export_token_latex(DString * out, const char * source, token * t, scrat
 					print_const("\\newacronym{");
 					print(temp_note->label_text);
 					print_const("}{");
-					print(temp_note->label_text);
+					mmd_print_string_latex(out, temp_note->label_text);
 					print_const("}{");
-					print(temp_note->clean_text);
+					mmd_print_string_latex(out, temp_note->clean_text);
 					print_const("}");
 
 					printf("\\gls{%s}", temp_note->label_text);
@@ -2446,7 +2446,7 @@ void mmd_define_glossaries_latex(DString * out, const char * source, scratch_pad
 			print(f->note->clean_text);
 
 			print_const("}{name=");
-			print(f->note->clean_text);
+			mmd_print_string_latex(out, f->note->clean_text);
 			print_const("}{");
 
 			mmd_export_token_tree_latex(out, source, f->note->content, scratch);
@@ -2463,9 +2463,9 @@ void mmd_define_glossaries_latex(DString * out, const char * source, scratch_pad
 		print_const("\\newacronym{");
 		print(f->note->label_text);
 		print_const("}{");
-		print(f->note->label_text);
+		mmd_print_string_latex(out, f->note->label_text);
 		print_const("}{");
-		print(f->note->clean_text);
+		mmd_print_string_latex(out, f->note->clean_text);
 		print_const("}\n\n");
 	}
 }
